@@ -42,8 +42,9 @@ CHECKS = {
                 "input (1-, 2-, 3- and 4-byte characters; lead byte enumerated, continuation bytes symbolic) under every token limit: "
                 "kind, data, index, then Eof, via (A) first item + cursor post-state and (B) the step from any such state.",
         "design_ref": "DESIGN.md section 4, C03",
-        "note": "alloc::fmt::format stubbed. Inputs of ONE character only: multi-character tokens (numbers with lookahead, strings, "
-                "escapes, block strings, comments with content, `...`) are outside this check and a mutation there is not detected.",
+        "note": "alloc::fmt::format stubbed. Symbolic dimension = one character, or one last ASCII byte after a listed concrete prefix "
+                "(4 prefixes quick, 21 thorough) compared with a reference lexer; anything else (non-ASCII second character, three free "
+                "characters, longer tokens not in the prefix list) is outside and a mutation there is not detected.",
     },
     "C04": {
         "engine": "kani",
